@@ -278,8 +278,14 @@ func Build(kind string, s Spec) runtime.Object {
 			}
 			paths = append(paths, netv1beta1.HTTPIngressPath{Backend: netv1beta1.IngressBackend{ServiceName: r}})
 		}
-		if len(paths) > 0 {
-			ing.Spec.Rules = []netv1beta1.IngressRule{{IngressRuleValue: netv1beta1.IngressRuleValue{HTTP: &netv1beta1.HTTPIngressRuleValue{Paths: paths}}}}
+		// rules of up to two paths each (so: several paths per rule, several rules)
+		for len(paths) > 0 {
+			k := 2
+			if len(paths) < k {
+				k = len(paths)
+			}
+			ing.Spec.Rules = append(ing.Spec.Rules, netv1beta1.IngressRule{IngressRuleValue: netv1beta1.IngressRuleValue{HTTP: &netv1beta1.HTTPIngressRuleValue{Paths: paths[:k:k]}}})
+			paths = paths[k:]
 		}
 		return ing
 	}
